@@ -220,6 +220,14 @@ class SArr:
         # array through views and copies); only the empty-array failure, which is the program's own, is
         raise Unsupported("max()/min() of a non-empty symbolic array (only the empty-array ValueError is modelled)")
 
+    def any(self, *a, **k):
+        from .models_numpy import _any_all
+        return _any_all(ctx().interp, self, True, a, k)
+
+    def all(self, *a, **k):
+        from .models_numpy import _any_all
+        return _any_all(ctx().interp, self, False, a, k)
+
     def max(self, *a, **k):
         if a or k:
             raise Unsupported("max with arguments")
